@@ -246,5 +246,8 @@ func (sw *FixedSliceWriter) FlushBits() {
 	if sw.n != 0 {
 		b := byte((sw.v << (8 - uint(sw.n))) & Mask(8))
 		sw.WriteUint8(b)
+		// The pending bits are out: the writer is byte-aligned again
+		sw.n = 0
+		sw.v = 0
 	}
 }
